@@ -159,6 +159,85 @@ def dfCurveOld (x0 tenors : List Rat) (t : Rat) : Rat := 1 / auxOld x0 tenors t
 def dfCurve? (x0 tenors : List Rat) (t : Rat) : Option Rat :=
   if searchLeft tenors t ≤ x0.length ∧ 0 < x0.length then some (dfCurve x0 tenors t) else none
 
+/-! ### NumPy shapes: what the offered coefficient objects return on the column state `(m, 1)` of `MarkovChainSDE` and on
+the stacked state `(2, m, 1)` of `CouplingSDE` (levydrivensde.py:35-120, markovchainsde.py:78-99, couplingsde.py:91-116)
+
+An array is its shape and its entries by multi-index.  Only the NumPy rules the two schemes exercise are modelled:
+broadcasting of `*`, `np.diag`, `@` of a matrix (or a stack of matrices, or a 1-d array) with a column / a stack of
+columns.  `none` stands for the exception NumPy raises. -/
+
+structure NArr where
+  shape : List Nat
+  get : List Nat → Rat
+
+/-- broadcasting of two shapes written right-to-left; `none`: "operands could not be broadcast together" -/
+def bshapeRev : List Nat → List Nat → Option (List Nat)
+  | [], l => some l
+  | a :: r, [] => some (a :: r)
+  | a :: r, b :: s =>
+    if a = b ∨ b = 1 then (bshapeRev r s).map (fun t => a :: t)
+    else if a = 1 then (bshapeRev r s).map (fun t => b :: t) else none
+
+def bshape (s t : List Nat) : Option (List Nat) := (bshapeRev s.reverse t.reverse).map List.reverse
+
+/-- the index an operand of shape `sh` reads at the result index `idx` (aligned on the right, 0 along its axes of
+    length 1) -/
+def bidx (sh idx : List Nat) : List Nat :=
+  List.zipWith (fun n i => if n = 1 then 0 else i) sh (idx.drop (idx.length - sh.length))
+
+/-- elementwise `a * b` with broadcasting -/
+def bmul (a b : NArr) : Option NArr :=
+  (bshape a.shape b.shape).map (fun sh => ⟨sh, fun idx => a.get (bidx a.shape idx) * b.get (bidx b.shape idx)⟩)
+
+/-- `np.diag`: builds the diagonal matrix of a 1-d array, *extracts* the diagonal of a 2-d array, raises
+    `ValueError("Input must be 1- or 2-d.")` otherwise -/
+def npDiag (x : NArr) : Option NArr :=
+  match x.shape with
+  | [n] => some ⟨[n, n], fun idx => match idx with | [i, j] => if i = j then x.get [i] else 0 | _ => 0⟩
+  | [r, c] => some ⟨[min r c], fun idx => match idx with | [i] => x.get [i, i] | _ => 0⟩
+  | _ => none
+
+/-- `a @ b` for the operand ranks the schemes produce: 1-d @ 2-d, 2-d @ 2-d, 2-d @ stack (the matrix is broadcast
+    over the leading axis), stack @ stack; a mismatch of the contracted length raises -/
+def matmul (a b : NArr) : Option NArr :=
+  match a.shape, b.shape with
+  | [k], [k', n] =>
+    if k = k' then some ⟨[n], fun idx => match idx with
+      | [j] => sumTo k (fun l => a.get [l] * b.get [l, j]) | _ => 0⟩ else none
+  | [m, d], [d', n] =>
+    if d = d' then some ⟨[m, n], fun idx => match idx with
+      | [i, j] => sumTo d (fun l => a.get [i, l] * b.get [l, j]) | _ => 0⟩ else none
+  | [m, d], [c, d', n] =>
+    if d = d' then some ⟨[c, m, n], fun idx => match idx with
+      | [s, i, j] => sumTo d (fun l => a.get [i, l] * b.get [s, l, j]) | _ => 0⟩ else none
+  | [c, m, d], [c', d', n] =>
+    if d = d' ∧ c = c' then some ⟨[c, m, n], fun idx => match idx with
+      | [s, i, j] => sumTo d (fun l => a.get [s, i, l] * b.get [s, l, j]) | _ => 0⟩ else none
+  | _, _ => none
+
+/-- `np.array([x]).T`: the column state `(m, 1)` -/
+def colArr (m : Nat) (x : Vec) : NArr := ⟨[m, 1], fun idx => match idx with | [k, _] => x k | _ => 0⟩
+/-- an `(m, d)` matrix -/
+def matArr (m d : Nat) (A : Mat) : NArr := ⟨[m, d], fun idx => match idx with | [k, j] => A k j | _ => 0⟩
+/-- `np.stack((a, b))`: leading axis fine / coarse -/
+def stack2 (a b : NArr) : NArr :=
+  ⟨2 :: a.shape, fun idx => match idx with | c :: r => if c = 0 then a.get r else b.get r | [] => 0⟩
+
+/-- `Constant.__call__` (levydrivensde.py:44-45): the stored `(m, d)` matrix whatever the state -/
+def constCall (m d : Nat) (C : Mat) (_x : NArr) : Option NArr := some (matArr m d C)
+/-- `DiagX.__call__` (levydrivensde.py:56-57): `np.diag(x)` -/
+def diagCall (x : NArr) : Option NArr := npDiag x
+/-- `LiborSDEFunction.__call__` / `ForwardMarketSDEFunction.__call__` (levydrivensde.py:84-85, 119-120):
+    `self.sigma(t) * x` with `sigma(t)` an `(m, d)` matrix (an input of the model) -/
+def scaleCall (m d : Nat) (sigma : Mat) (x : NArr) : Option NArr := bmul (matArr m d sigma) x
+
+/-- `LiborSDEFunction.sigma(t)` (levydrivensde.py:74-82): the row of a Libor rate whose tenor `T_k ≤ t` has passed is
+    zero (the rate has fixed), the other rows are those of the constant matrix -/
+def liborSigma (sigma : Mat) (T : Nat → Rat) : Rat → Mat := fun t k j => if T k ≤ t then 0 else sigma k j
+
+/-- `a(t, zi) @ v` -/
+def applyCoef (a : Option NArr) (v : NArr) : Option NArr := a.bind (fun A => matmul A v)
+
 /-! ### list front-end used by the driver -/
 
 def vecOf (l : List Rat) : Vec := fun i => l.getD i 0
